@@ -480,7 +480,13 @@ class Ctx:
               "level": "proof", "coverage": cov,
               "assumptions": assumptions or [],
               "wall_s": round(wall, 2), "violations": len(self.violations)}
-        with open(os.path.join(VERIF, "evidence", self.prop + ".json"),
+        # evidence/ describes runs on /repo; a run against another tree
+        # (VERIF_REPO: seeded or scratch trees) must not overwrite it
+        evdir = os.path.join(VERIF, "evidence")
+        if os.path.realpath(REPO) != "/repo":
+            evdir = os.path.join(VERIF, "build", "evidence-other-tree")
+            os.makedirs(evdir, exist_ok=True)
+        with open(os.path.join(evdir, self.prop + ".json"),
                   "w") as f:
             json.dump(ev, f, indent=1, default=repr)
         print("%s %s: obligations %d/%d, correspondence %d cases "
